@@ -24,12 +24,12 @@ import (
 
 // instrumented entropy source
 type instrReader struct {
-	base    io.Reader
-	reads   int64
-	failAt  int64 // fail at this read (1-based), 0 = never
-	cancel  context.CancelFunc
+	base     io.Reader
+	reads    int64
+	failAt   int64 // fail at this read (1-based), 0 = never
+	cancel   context.CancelFunc
 	cancelAt int64
-	slow    time.Duration
+	slow     time.Duration
 }
 
 var errEntropy = errors.New("entropy source failed (injected)")
